@@ -191,6 +191,39 @@ def run(ctx):
     vcheck("regex-has-capture-group", POOL_VALIDATE, "routing regexes need the capture group the router reads", callee_pats=["re:^regex::regex::string::Regex::captures_len$"])
     vcheck("usernames-unique", POOL_VALIDATE, "user names are unique within a pool (they key the pools)", fields=["users"], callee_pats=["re:HashSet.*::(insert|len)$"])
     vcheck("credentials-present", CFG_VALIDATE, "every user has a password unless auth_query is configured", fields=["password"])
+    # ... and `auth_query is configured` is asked of the user's own pool (round 5: the any-pool helper Config::is_auth_query_configured
+    # let a password-less user of a pool without auth_query through; nobody can ever log in as that user)
+    own = None
+    cv = F.body(CFG_VALIDATE)
+    for r in rets.get(CFG_VALIDATE) or []:
+        if "password" not in r["fields"]:
+            continue
+        # the short-circuit chain in front of the password test: `(a || b || c) && password.is_none()`
+        flds, cal = set(r["fields"]), set(r["callees"])
+        level = [sb for sb, _ in cv.direct_control_deps(r["block"])]
+        seen_sb = set(level)
+        for _ in range(3):
+            nxt = []
+            for sb in level:
+                for sb2, _t in cv.direct_control_deps(sb):
+                    if sb2 in seen_sb:
+                        continue
+                    os_ = origins(cv, cv.blocks[sb2]["term"]["op"], taint=True)
+                    if any(o.kind == "call" and re.search(r"Iterator>::next$|Try>::branch$", o.call.name) for o in origins(cv, cv.blocks[sb2]["term"]["op"])):
+                        continue  # loop conditions and `?` are not part of the test
+                    seen_sb.add(sb2)
+                    nxt.append(sb2)
+                    for o in os_:
+                        if o.kind in ("place", "param") and o.proj:
+                            flds.update(p_[1:] for p_ in o.proj if p_.startswith(".") and not p_[1:].isdigit())
+                        elif o.kind == "call":
+                            cal.add(o.call.name)
+            level = nxt
+        if {"auth_query", "auth_query_user", "auth_query_password"} <= flds or "pgcat::config::Pool::is_auth_query_configured" in cal:
+            own = r
+    rv.check(own is not None, "validator:credentials-from-own-pool", "a user without a password is accepted only when the pool he belongs to has auth_query, auth_query_user and auth_query_password",
+             "no `return Err(BadConfig)` in Config::validate depends on the user's password together with the auth_query settings of the user's own pool: a user without a password is accepted in a pool that has no auth_query "
+             "(e.g. because some other pool has one) and every login attempt of that user fails")
 
     # ------------------------------------------------------------ structural / call-site dischargers
     rs = ctx.rule("C15-S", "structural dischargers: call-site guards and by-construction facts used by the pairing", floor=3)
